@@ -9,7 +9,8 @@ Modelled, branch by branch:
   * "Put the data back into the input" (`restore`), written three times in the file: Body := nil; if GetBody is
     set Body := GetBody() (nil again on error); if Body is still nil: ContentLength := len(data), GetBody := a
     reader over data, Body := GetBody();
-  * validateSecurityRequirement: missing AuthenticationFunc returns before anything is read; a request without a
+  * validateSecurityRequirement: an empty requirement returns nil first of all (1f8c043); a missing AuthenticationFunc
+    returns before anything is read; a request without a
     body is not touched; otherwise the body is read once, a DEFERRED restore runs on every exit path (the repaired
     code, finding #11), and before each callback the body is restored as well; an undeclared scheme and a failing
     callback end the requirement;
@@ -86,14 +87,19 @@ def schemeLoopNoBody : Req → List Scheme → Req × Bool × List Bytes
         (r3, b, readAll r :: seen)
       else (r2, false, [readAll r])
 
-/-- validateSecurityRequirement -/
-def secReq (hasAuthFunc : Bool) (r : Req) (schemes : List Scheme) : Req × Bool × List Bytes :=
+/-- validateSecurityRequirement from `names := …` on -/
+def secReqNE (hasAuthFunc : Bool) (r : Req) (schemes : List Scheme) : Req × Bool × List Bytes :=
   if !hasAuthFunc then (r, false, [])
   else match r.body with
   | none => schemeLoopNoBody r schemes
   | some data =>
     let (r1, b, seen) := schemeLoop data (drain r) schemes
     (restore r1 data, b, seen)        -- the deferred restore
+
+/-- validateSecurityRequirement: an empty requirement needs no authentication and returns nil at once (repaired code,
+    commit 1f8c043: before the authentication function is asked for, before anything is read) -/
+def secReq (hasAuthFunc : Bool) (r : Req) (schemes : List Scheme) : Req × Bool × List Bytes :=
+  if schemes.isEmpty then (r, true, []) else secReqNE hasAuthFunc r schemes
 
 /-- ValidateSecurityRequirements over a non-empty list (`none` of it satisfied → error) -/
 def secReqs (hasAuthFunc : Bool) : Req → List (List Scheme) → Req × Bool × List Bytes
